@@ -251,7 +251,7 @@ struct Sys
     struct Obj
     {
         std::unique_ptr<NN> nn;
-        std::map<int, El> model;  // id -> element
+        std::multimap<int, El> model;  // id -> element; an element added twice (operator== copies) is held twice
         int nextId = 0;
         std::string last;
         std::string opErr;
@@ -262,7 +262,7 @@ struct Sys
     {
         // the op drew a k-centers pivot and was run with answer "first": also run it with the other answers
         std::vector<std::string> v;
-        if (isGnat && o.drawsInLastOp > 0 && op.back() == '0' && (op[0] == 'A' || op[0] == 'R' || op[0] == 'V'))
+        if (isGnat && o.drawsInLastOp > 0 && op.back() == '0' && (op[0] == 'A' || op[0] == 'D' || op[0] == 'R' || op[0] == 'V'))
             for (int u = 1; u < cfg.pivotModes; ++u)
                 v.push_back(op.substr(0, op.size() - 1) + std::to_string(u));
         return v;
@@ -326,6 +326,13 @@ struct Sys
                 ops.push_back("R " + std::to_string(k) + " " + std::to_string(u));
             ++k;
         }
+        // a second copy of an element already held (the contents are a multiset): of the first and of the last element
+        if (n > 0 && n < cfg.cap)
+        {
+            ops.push_back("D 0 0");
+            if (n > 1 && !isGnat)  // (the GNAT state spaces are the large ones: one copy op there)
+                ops.push_back("D " + std::to_string(n - 1) + " 0");
+        }
         // removal of an element that is not there: one at a free spot, one sharing its point with a present element
         ops.push_back("X 0 0");
         if (n + 2 <= cfg.cap)
@@ -373,7 +380,18 @@ struct Sys
                 g_pivotMode = a[1];
                 El e = mk(o, a[0]);
                 o.nn->add(e);
-                o.model[e.id] = e;
+                o.model.insert({e.id, e});
+                break;
+            }
+            case 'D':
+            {
+                // add a copy (same id, same point: operator== says equal) of an element that is already there
+                g_pivotMode = a[1];
+                auto it = o.model.begin();
+                std::advance(it, a[0]);
+                El e = it->second;
+                o.nn->add(e);
+                o.model.insert({e.id, e});
                 break;
             }
             case 'V':
@@ -385,7 +403,7 @@ struct Sys
                     {
                         El e = mk(o, a[i]);
                         v.push_back(e);
-                        o.model[e.id] = e;
+                        o.model.insert({e.id, e});
                     }
                 o.nn->add(v);
                 break;
@@ -441,6 +459,7 @@ struct Sys
         switch (l.empty() ? '0' : l[0])
         {
             case 'A': return "add";
+            case 'D': return "add-copy";
             case 'V': return "add-vector";
             case 'R': return "remove";
             case 'X': return "remove-absent";
@@ -457,15 +476,15 @@ struct Sys
              std::function<void(const std::string &, const std::string &)> &fail)
     {
         std::sort(want.begin(), want.end());
-        std::set<int> ids;
+        std::map<int, size_t> ids;
         bool member = true, dup = false, sorted = true;
         for (size_t i = 0; i < got.size(); ++i)
         {
             auto it = o.model.find(got[i].id);
             if (it == o.model.end() || it->second.x != got[i].x || it->second.y != got[i].y)
                 member = false;
-            if (!ids.insert(got[i].id).second)
-                dup = true;
+            if (++ids[got[i].id] > o.model.count(got[i].id))
+                dup = true;  // more often than the structure holds it
             if (i && dist(M, q, got[i]) < dist(M, q, got[i - 1]))
                 sorted = false;
         }
